@@ -19,13 +19,15 @@ Part A  lowest common ancestor
 Part B  summarised counts
   `counts_eq`, `aggregate_table`, `aggregate_once`   every hash is credited to its LCA and to each
                              of its ancestors exactly once (the root only when it is the LCA itself)
-Part C  the database, over all histories of insert / downsample_scaled
-  `history_invariant`        the tables represent the log of accepted insertions
+Part C  the database, over all histories of insert / downsample_scaled / JSON save+load
+  `history_invariant`        the tables represent the log of accepted insertions (also after a JSON
+                             round trip followed by further insertions)
   `index_is_relation`        h ↦ idx is in the index  ⇔  signature idx was inserted and holds h
   `assignments_exact`, `identifiers_exact`, `reconstruct`, `len_counts_all`
   `json_roundtrip` (+ `json_assignments`, `json_identifiers`, `json_signatures`, `json_lineage_same_taxa`)
-  `downsample_entry_strict_partial` / `downsample_entry_patched`, counterexample `downsample_drops_threshold_hash` (D9)
-  `empty_sketch_counted_not_yielded` (D11), `sql_downsample_changes_no_answer`
+  `downsample_entry`, `downsample_commutes`, regression `downsample_keeps_threshold_hash` (D9, repaired)
+  `empty_sketch_counted_not_yielded` (D11), `sql_downsample_changes_no_answer` (C18.3),
+  `sql_identifiers_absent_hash`, `sql_hash_roundtrip` (C18.6 / C18.7, repaired)
 -/
 import SmVerif.Lemmas.LineageLca
 import SmVerif.Lemmas.LineageAgg
@@ -275,6 +277,7 @@ theorem classify_kept_perm (counts : List (Lineage × Nat)) (thr : Nat) :
 inductive Op where
   | insert (sig : Sig) (ident : String) (lineage : Lineage)
   | downsample (S : Nat)
+  | jsonReload                       -- `save(path)` followed by `db = LCA_Database.load(path)`
 
 /-- the implementation side -/
 def stepDb (db : Db) : Op → Db
@@ -282,10 +285,13 @@ def stepDb (db : Db) : Op → Db
   | .downsample S => match db.downsampleScaled S with
     | .ok d => d
     | .error _ => db
+  | .jsonReload => db.jsonRoundTrip
 
 /-- the specification side: the log of what was accepted.  An accepted insertion contributes the
     identifier, the name, the lineage and the sketch's hashes at the database's scaled; an accepted
-    `downsample_scaled(S)` restricts every sketch with the database's filter (`downKeep S`). -/
+    `downsample_scaled(S)` restricts every sketch with the database's filter (`downKeep S`, which
+    `downsample_entry` shows to be "the hashes up to max_hash(S)"); a JSON round trip reads every
+    lineage back along `taxlist()`. -/
 def stepLog (db : Db) (log : List Entry) : Op → List Entry
   | .insert sig ident lineage => match (db.insert sig ident lineage).2, sig.downTo db.scaled with
     | .ok _, .ok kept => log ++ [entryOf sig ident lineage kept]
@@ -293,14 +299,14 @@ def stepLog (db : Db) (log : List Entry) : Op → List Entry
   | .downsample S => match db.downsampleScaled S with
     | .ok _ => if S = db.scaled then log else log.map (Entry.restrict S)
     | .error _ => log
+  | .jsonReload => log.map Entry.json
 
 def run (db : Db) (log : List Entry) : List Op → Db × List Entry
   | [] => (db, log)
   | op :: ops => run (stepDb db op) (stepLog db log op) ops
 
-theorem step_invariant {db : Db} {log : List Entry} (hq : QRep db log) (hl : LinInv db)
-    (hnl : db.loaded = false) (op : Op) :
-    QRep (stepDb db op) (stepLog db log op) ∧ LinInv (stepDb db op) ∧ (stepDb db op).loaded = false := by
+theorem step_invariant {db : Db} {log : List Entry} (hq : QRep db log) (hl : LinInv db) (op : Op) :
+    QRep (stepDb db op) (stepLog db log op) ∧ LinInv (stepDb db op) := by
   cases op with
   | insert sig ident lineage =>
     simp only [stepDb, stepLog]
@@ -308,47 +314,46 @@ theorem step_invariant {db : Db} {log : List Entry} (hq : QRep db log) (hl : Lin
     | mk db' res =>
       cases res with
       | error e =>
-        have := insert_error hq hnl hres
+        have := insert_error hq hres
         subst this
         simp only
-        exact ⟨hq, hl, hnl⟩
+        exact ⟨hq, hl⟩
       | ok n =>
-        obtain ⟨kept, hk, _, _, _, _, hq', hl', hnl', _⟩ := insert_ok hq hl hnl hres
+        obtain ⟨kept, hk, _, _, _, _, hq', hl', _⟩ := insert_ok hq hl hres
         simp only [hk]
-        exact ⟨hq', hl', hnl'⟩
+        exact ⟨hq', hl'⟩
   | downsample S =>
     simp only [stepDb, stepLog]
     cases hres : db.downsampleScaled S with
-    | error e => exact ⟨hq, hl, hnl⟩
+    | error e => exact ⟨hq, hl⟩
     | ok db' =>
       simp only
       by_cases hS : S = db.scaled
       · have := downsample_same hres hS
         subst this
         simp only [hS, if_true]
-        exact ⟨hq, hl, hnl⟩
+        exact ⟨hq, hl⟩
       · simp only [hS, if_false]
-        refine ⟨(downsample_qrep hq hres hS).1, downsample_lininv hl hres, ?_⟩
-        unfold Db.downsampleScaled at hres
-        by_cases h2 : S < db.scaled
-        · simp [hS, h2] at hres
-        · simp only [hS, h2, if_false, Except.ok.injEq] at hres
-          subst hres; rfl
+        exact ⟨(downsample_qrep hq hres hS).1, downsample_lininv hl hres⟩
+  | jsonReload =>
+    simp only [stepDb, stepLog]
+    exact ⟨json_qrep hq hl, json_lininv hl⟩
 
-/-- over every history of insertions (accepted or refused, in any order) and downsamplings, starting
-    from an empty database, the tables represent the log of what was accepted -/
+/-- over every history of insertions (accepted or refused, in any order), downsamplings and JSON
+    save/load round trips — in particular insertions *after* a round trip — starting from an empty
+    database, the tables represent the log of what was accepted -/
 theorem history_invariant (ksize scaled moltype : Nat) (ops : List Op) :
     QRep (run (Db.new ksize scaled moltype) [] ops).1 (run (Db.new ksize scaled moltype) [] ops).2 := by
-  have : ∀ (ops : List Op) (db : Db) (log : List Entry), QRep db log → LinInv db → db.loaded = false →
+  have : ∀ (ops : List Op) (db : Db) (log : List Entry), QRep db log → LinInv db →
       QRep (run db log ops).1 (run db log ops).2 := by
     intro ops
     induction ops with
-    | nil => intro db log hq _ _; exact hq
+    | nil => intro db log hq _; exact hq
     | cons op ops ih =>
-      intro db log hq hl hnl
-      obtain ⟨a, b, c⟩ := step_invariant hq hl hnl op
-      exact ih _ _ a b c
-  exact this ops _ _ (qrep_new ..) (lininv_new ..) rfl
+      intro db log hq hl
+      obtain ⟨a, b⟩ := step_invariant hq hl op
+      exact ih _ _ a b
+  exact this ops _ _ (qrep_new ..) (lininv_new ..)
 
 /-- the index is the relation "signature `idx` was inserted and holds `h` at the database's scaled":
     nothing is missing, nothing is invented -/
@@ -537,40 +542,29 @@ theorem json_signatures {db : Db} {log : List Entry} (hq : QRep db log) :
 theorem json_lineage_same_taxa {l : Lineage} (h : Positional l) : canon (jsonLineage l) = canon l :=
   canon_jsonLineage h
 
-/-! ### `downsample_scaled` (finding D9) -/
+/-! ### `downsample_scaled` (D9, repaired in /repo: `k <= max_hash` of a sketch built at `S`)
 
-/-- what `downsample_scaled(S)` keeps of an entry, as the code stands (`k < max_hash` against the
-    Python-rounded threshold): the hashes strictly below `_get_max_hash_for_scaled(S)` -/
-theorem downsample_entry_strict_partial (hstrict : Gen.lcaDownStrict = true) (hpy : Gen.lcaDownThrRust = false)
-    (S : Nat) (e : Entry) : (e.restrict S).kept = e.kept.filter (· < mhP S) := by
+   The comparison and the threshold expression are re-read from the source by the translator
+   (`Gen.lcaDownStrict`, `Gen.lcaDownThrRust`); these theorems are about the values read now and stop
+   building if the source goes back to `k < _get_max_hash_for_scaled(S)`. -/
+
+/-- after `downsample_scaled(S)` every entry holds what a direct insertion at scaled `S` files:
+    the hashes up to `max_hash(S)`, inclusive -/
+theorem downsample_entry (S : Nat) (e : Entry) : (e.restrict S).kept = e.kept.filter (· ≤ mhR S) := by
   unfold Entry.restrict
   simp only
   apply List.filter_congr
   intro x _
-  simp [downKeep, downThreshold, hstrict, hpy]
+  have h1 : Gen.lcaDownStrict = false := rfl
+  have h2 : Gen.lcaDownThrRust = true := rfl
+  simp [downKeep, downThreshold, h1, h2]
 
-/- FULL STATEMENT (not proved / false for the code as it stands):
-     theorem downsample_entry (S : Nat) (e : Entry) : (e.restrict S).kept = e.kept.filter (· ≤ mhR S)
-   i.e. after `downsample_scaled(S)` every sketch is what a direct insertion at scaled `S` files.
-   Counterexample: `downsample_drops_threshold_hash` (S = 10: the hash equal to max_hash(10)).
-   It holds for the patched comparison / threshold (`downsample_entry_patched`). -/
-
-/-- with `k <= max_hash` against the threshold of a sketch built at `S` (the proposed patch), the
-    downsampled entry is what a direct insertion at `S` files -/
-theorem downsample_entry_patched (hstrict : Gen.lcaDownStrict = false) (hrust : Gen.lcaDownThrRust = true)
-    (S : Nat) (e : Entry) : (e.restrict S).kept = e.kept.filter (· ≤ mhR S) := by
-  unfold Entry.restrict
-  simp only
-  apply List.filter_congr
-  intro x _
-  simp [downKeep, downThreshold, hstrict, hrust]
-
-/-- ... and then downsampling commutes with insertion: filtering by the finer threshold first is invisible -/
-theorem downsample_commutes_patched (hstrict : Gen.lcaDownStrict = false) (hrust : Gen.lcaDownThrRust = true)
-    (S0 S : Nat) (hmono : mhR S ≤ mhR S0) (hashes : List Nat) (e : Entry)
+/-- downsampling commutes with insertion: a sketch filed at the finer scaled `S0` and then
+    downsampled is the sketch filed at `S` directly -/
+theorem downsample_commutes (S0 S : Nat) (hmono : mhR S ≤ mhR S0) (hashes : List Nat) (e : Entry)
     (he : e.kept = hashes.filter (· ≤ mhR S0)) :
     (e.restrict S).kept = hashes.filter (· ≤ mhR S) := by
-  rw [downsample_entry_patched hstrict hrust, he, List.filter_filter]
+  rw [downsample_entry, he, List.filter_filter]
   apply List.filter_congr
   intro x _
   by_cases hx : x ≤ mhR S
@@ -578,25 +572,30 @@ theorem downsample_commutes_patched (hstrict : Gen.lcaDownStrict = false) (hrust
     simp [hx, this]
   · simp [hx]
 
-/-- D9, kernel-checked on the model of the code as it stands: a database at scaled 1 holding
-    `h = max_hash(10)`; after `downsample_scaled(10)` the hash is gone, whereas the same signature
-    inserted into a database at scaled 10 files it -/
-theorem downsample_drops_threshold_hash (hstrict : Gen.lcaDownStrict = true) (hpy : Gen.lcaDownThrRust = false) :
+/-- regression example for D9 (kernel-checked on the model of the code as it stands now): a database at
+    scaled 1 holding `h = max_hash(10)`; after `downsample_scaled(10)` the hash is still filed under the
+    signature, `h + 1` is gone, and a database built directly at scaled 10 agrees -/
+theorem downsample_keeps_threshold_hash :
     let h := 1844674407370955264
-    let sig : Sig := { name := "s", filename := "", ksize := 21, moltype := 0, num := 0, scaled := 1, hashes := [5, h] }
+    let sig : Sig := { name := "s", filename := "", ksize := 21, moltype := 0, num := 0, scaled := 1, hashes := [5, h, h + 1] }
     let db1 := (Db.insert (Db.new 21 1 0) sig "" [(0, 1)]).1
     let direct := (Db.insert (Db.new 21 10 0) sig "" [(0, 1)]).1
-    mhR 10 = h ∧ db1.idxsOf h = [0] ∧ direct.idxsOf h = [0] ∧
-      (∀ d, db1.downsampleScaled 10 = .ok d → d.idxsOf h = [] ∧ d.idxsOf 5 = [0]) := by
+    mhR 10 = h ∧ db1.idxsOf h = [0] ∧ db1.idxsOf (h + 1) = [0] ∧ direct.idxsOf h = [0] ∧ direct.idxsOf (h + 1) = [] ∧
+      (∀ d, db1.downsampleScaled 10 = .ok d → d.idxsOf h = [0] ∧ d.idxsOf (h + 1) = [] ∧ d.idxsOf 5 = [0]) := by
   have e1 : mhR 10 = 1844674407370955264 := by decide +kernel
-  have e2 : mhP 10 = 1844674407370955264 := by decide +kernel
   have e3 : insThreshold 10 = 1844674407370955264 := by decide +kernel
   have e4 : insThreshold 1 = U64MAX := by decide +kernel
-  have hk : ∀ k, downKeep 10 k = decide (k < 1844674407370955264) := by
-    intro k; simp [downKeep, downThreshold, hstrict, hpy, e2]
-  refine ⟨e1, ?_, ?_, ?_⟩
+  have h1 : Gen.lcaDownStrict = false := rfl
+  have h2 : Gen.lcaDownThrRust = true := rfl
+  have hk : ∀ k, downKeep 10 k = decide (k ≤ 1844674407370955264) := by
+    intro k; simp [downKeep, downThreshold, h1, h2, e1]
+  refine ⟨e1, ?_, ?_, ?_, ?_, ?_⟩
   · simp [Db.insert, Db.new, Sig.downTo, Db.getIdentIndex, Db.getLineageId, Sig.str, Db.idxsOf,
       addHashes, Dict.get?, Dict.set, Dict.contains, Dict.addSet]
+  · simp [Db.insert, Db.new, Sig.downTo, Db.getIdentIndex, Db.getLineageId, Sig.str, Db.idxsOf,
+      addHashes, Dict.get?, Dict.set, Dict.contains, Dict.addSet]
+  · simp [Db.insert, Db.new, Sig.downTo, Db.getIdentIndex, Db.getLineageId, Sig.str, Db.idxsOf,
+      addHashes, Dict.get?, Dict.set, Dict.contains, Dict.addSet, e3]
   · simp [Db.insert, Db.new, Sig.downTo, Db.getIdentIndex, Db.getLineageId, Sig.str, Db.idxsOf,
       addHashes, Dict.get?, Dict.set, Dict.contains, Dict.addSet, e3]
   · intro d hd
@@ -620,6 +619,18 @@ theorem sql_downsample_changes_no_answer {s s' : SqlDb} {S : Nat} (h : s.downsam
     subst h
     exact ⟨rfl, fun _ _ => rfl, fun _ => rfl, rfl, rfl⟩
 
+/-- C18.6 (repaired): a hash nobody holds has no identifiers on the SQLite form either -/
+theorem sql_identifiers_absent_hash (s : SqlDb) (h : Nat) (hh : s.idxsOf h = []) :
+    s.getIdentifiers h = .ok [] := by
+  unfold SqlDb.getIdentifiers
+  simp [hh]
+
+/-- C18.7 (repaired): a 64-bit hash value survives the signed storage of SQLite, so `hashvals` of the
+    SQLite form lists the stored hashes themselves -/
+theorem sql_hash_roundtrip (h : Nat) (hh : h < 2 ^ 64) : convertHashFrom (convertHashTo h) = h := by
+  unfold convertHashFrom convertHashTo MAX_SQLITE_INT
+  split <;> split <;> omega
+
 /-! ## non-vacuity -/
 
 /-- three lineages, two of which disagree at the third rank; one has a missing rank that is skipped -/
@@ -639,9 +650,24 @@ example :
     let s2 : Sig := { name := "b", filename := "", ksize := 21, moltype := 0, num := 0, scaled := 1, hashes := [9] }
     let r := run (Db.new 21 1 0) [] [.insert s1 "" [(0, 1)], .insert s2 "" [(0, 1)], .insert s1 "" []]
     r.1.idxsOf 9 = [0, 1] ∧ r.2.length = 2 ∧ r.1.getLineageAssignments 9 = .ok [[(0, 1)], [(0, 1)]] := by
-  have e4 : insThreshold 1 = U64MAX := by decide +kernel
   simp [run, stepDb, stepLog, Db.insert, Db.new, Sig.downTo, Db.getIdentIndex, Db.getLineageId, Sig.str,
     Db.idxsOf, addHashes, Dict.get?, Dict.set, Dict.contains, Dict.addSet, entryOf, Db.getLineageAssignments,
+    List.foldlM, bind, Except.bind, pure, Except.pure]
+
+/-- C18.8 (repaired), regression example: save/load, then insert another signature holding a hash that
+    is already indexed and a new one; the loaded database answers for both, with the old lineage read
+    back along `taxlist()` and the new one as given -/
+example :
+    let s1 : Sig := { name := "a", filename := "", ksize := 21, moltype := 0, num := 0, scaled := 1, hashes := [9] }
+    let s2 : Sig := { name := "b", filename := "", ksize := 21, moltype := 0, num := 0, scaled := 1, hashes := [9, 11] }
+    let r := run (Db.new 21 1 0) [] [.insert s1 "" [(0, 1)], .jsonReload, .insert s2 "" [(0, 2)], .insert s1 "" []]
+    r.1.len = 2 ∧ r.1.idxsOf 9 = [0, 1] ∧ r.1.idxsOf 11 = [1] ∧
+      r.1.getLineageAssignments 9 =
+        .ok [[(0, 1), (1, 0), (2, 0), (3, 0), (4, 0), (5, 0), (6, 0), (7, 0)], [(0, 2)]] := by
+  have e4 : insThreshold 1 = U64MAX := by decide +kernel
+  simp [run, stepDb, stepLog, Db.insert, Db.new, Sig.downTo, Db.getIdentIndex, Db.getLineageId, Sig.str,
+    Db.idxsOf, Db.len, addHashes, Dict.get?, Dict.set, Dict.contains, Dict.addSet, entryOf, Db.getLineageAssignments,
+    Db.jsonRoundTrip, jsonLineage, nRanks, Gen.lcaTaxlist, Dict.nextAfter, Dict.vals, List.range, List.range.loop,
     List.foldlM, bind, Except.bind, pure, Except.pure]
 
 end Sm.C18
